@@ -78,13 +78,15 @@ LocSucc(q, loc) ==
     [] loc.k = "ins" /\ loc.p < Len(BlockOf(F(q), loc.b).ins) -> {[loc EXCEPT !.p = loc.p + 1]}
     [] OTHER -> { EdgeLoc(1, F(q).edges[k]) : k \in OutEdges(F(q), loc.b) }
 
-\* nodes reachable from d by one or more steps when only nodes that do not write s may be passed
+\* nodes reachable from d by one or more steps when only nodes that are not an Assign/Load of s
+\* may be passed (the statement speaks of intervening assignments and loads; an intrinsic that
+\* declares s as written is a writer for RDSound but does not make an earlier definition unreachable)
 RECURSIVE ReachNW(_,_,_,_)
 ReachNW(q, s, seen, frontier) ==
   IF frontier = {} THEN seen
   ELSE LET nxt == UNION { LocSucc(q, x) : x \in frontier }
            new == nxt \ seen
-           pass == { x \in new : s \notin WriterNames(q, x) }
+           pass == { x \in new : WrittenAt(q, x) # s }          \* only assignments and loads intervene
        IN ReachNW(q, s, seen \cup new, pass)
 
 IsAssignOrLoad(q, bp) == LET op == BlockOf(F(q), bp[1]).ins[bp[2]].op IN op.k \in {"assign", "load"}
@@ -102,7 +104,7 @@ RDTight ==
                LET s == BlockOf(F(p), d[1]).ins[d[2]].op.dst.n
                    dl == [k |-> "ins", f |-> 1, b |-> d[1], p |-> d[2]]
                IN \/ \E l \in L : l = dl
-                  \/ \E l \in L : l \in ReachNW(p, s, {}, {dl}) /\ s \notin WriterNames(p, l)
+                  \/ \E l \in L : l \in ReachNW(p, s, {}, {dl}) /\ WrittenAt(p, l) # s
                   \/ Report(<<p, "rd-tight", k, d>>,
                             [why |-> "rd-tight", prog |-> p, loc |-> ent.loc, def |-> d, scalar |-> s]))
 
